@@ -16,10 +16,10 @@ CHECKS = {
          "For each (patch family, bowl, plain/optimized, compression) one always-save run records every checkpoint and the on-disk state there; then every k (sampled only above a cap) is resumed on the state of checkpoint k+lag after forward-only damage, plus runs aborted mid-operation by injected read errors, chains of repeated interruptions and a consumer that pauses asking for tens of MiB of stream; final tree must equal the new build. 'Eventually given checkpoints' is decided as bounded progress on purpose-sized families per (algorithm, quality class).",
          "Crash = loss of any suffix of post-checkpoint writes at file-content level; no kernel write reordering; crash points end before Commit starts.", "§5 C03"),
  "C04": ("exploration", "reference-model monitor: signature written from the specification (own weak hash + crypto/md5) compared hash-by-hash with both producers; race detector pass on the diff-time producer",
-         "Builds with sizes swept around 16K/32K/64K multiples, empty files, many tiny files, case-twin paths; diff-time signing through a source pool that slices every read randomly and yields, and stand-alone signing; every compression setting of the signature stream; validation of the pristine build in both modes must report nothing, also for a validator context that has just validated a damaged copy; symlink destinations spelled in non-normal forms; builds that are one regular file (one pool object signs stand-alone and at diff time, the file itself is the validation target).",
+         "Builds with sizes swept around 16K/32K/64K multiples, empty files, many tiny files, case-twin paths; diff-time signing through a source pool that slices every read randomly and yields, and stand-alone signing; every compression setting of the signature stream; validation of the pristine build in both modes must report nothing, also for a validator context that has just validated a damaged copy; symlink destinations spelled in non-normal forms; every third case runs four validations at the same time; builds that are one regular file (one pool object signs stand-alone and at diff time, the file itself is the validation target).",
          "Trusted: crypto/md5; the independent stream decoder.", "§5 C04"),
  "C05": ("fault_enumeration", "fault enumeration with an independent truth oracle: boundary-directed damage list applied to signed trees, wounds read from the .pww event log by the independent decoder, coverage of every differing offset checked",
-         "Every damage of the list (bit flips at block edges, truncation/extension around every block boundary, long garbled runs beyond the 4 MiB aggregation limit, kind swaps, symlink retargeting, directory replaced by a symlink to another existing directory) alone and in random combinations; truth is the byte-wise comparison of the damaged tree with the reference; fail-fast and wounds-file modes; weak-hash-preserving edits; symlinks retargeted to another spelling of the signed destination; validator contexts that validated a pristine sibling build (same layout, other content and signature) before.",
+         "Every damage of the list (bit flips at block edges, truncation/extension around every block boundary, long garbled runs beyond the 4 MiB aggregation limit, kind swaps, symlink retargeting, directory replaced by a symlink to another existing directory) alone and in random combinations; truth is the byte-wise comparison of the damaged tree with the reference; fail-fast and wounds-file modes; weak-hash-preserving edits (also in each of several identical consecutive blocks); length change + content change in the same file; symlinks retargeted to another spelling of the signed destination; validator contexts that validated a pristine sibling build (same layout, other content and signature) before.",
          "A non-nil error from non-fail-fast Validate counts as 'not declared valid' (counted).", "§5 C05"),
  "C07": ("exploration", "reference-model monitor + quiescence-based hang detector around the real optimizer over a parameter grid; child-process isolation attributes process-fatal panics",
          "Patches from pairs emphasising tiny new/old files, files smaller than the partition count, rename+edit, equal shares, several optimized files with decreasing old sizes and content moved from the bigger into the smaller file, a single optimized file; pools shared across the optimizer runs of a case (odd cases); partitions 0..16 x ForceMapAll x suffix-sort concurrency x size limits x output compression; the optimized patch is decoded against the grammar and applied fresh and in place; result compared with the new build.",
@@ -31,7 +31,7 @@ CHECKS = {
          "Pairs reusing old data by block ranges, bsdiff series, whole-file copies (aligned / unaligned / duplicated to several paths), each with every damage of the list to every old file, plain and optimized patches, fresh bowl wired through the safekeeper; two old files whose paths differ only by case; a kept file followed by a new file that starts with its first blocks; odd cases read through a pool that hands a just-used reader back at an arbitrary position; plus signatures that cannot be loaded (open error / truncated / garbage) with and without damage.",
          "Safekeeper wired as both target pool and the fresh bowl's TargetPool.", "§5 C09"),
  "C10": ("fault_enumeration", "fault enumeration over malformed inputs: truncation at every byte + field/structural mutation through an independent re-encoder; oracle = the call returns (recover, child-exit attribution, quiescence detector)",
-         "Valid plain/optimized/first-install (empty old build) patches, signatures and overlays re-framed uncompressed, gzip and brotli; every truncation point of the uncompressed streams and every index/span/length/seek/kind field set to boundary and huge values, pairs of fields damaged together (wrapping sums), data ops turned into block ranges, end markers dropped/duplicated/inserted, hash counts wrong (through the stream and as a signature value handed to the hash grouping directly); fed to patcher (fresh+dry bowl), optimizer, signature reader + hash grouping + validating pool, overlay applier.",
+         "Valid plain/optimized/first-install (empty old build) patches, signatures and overlays re-framed uncompressed, gzip and brotli; every truncation point of the uncompressed streams and every index/span/length/seek/kind field set to boundary and huge values, pairs of fields damaged together (wrapping sums), data ops turned into block ranges, end markers dropped/duplicated/inserted, hash counts wrong (through the stream and as a signature value handed to the hash grouping directly); fed to patcher (fresh+dry bowl, with and without a source-index whitelist), optimizer, signature reader + hash grouping + validating pool, overlay applier.",
          "Containers never mutated; every message carries its true length (the property's domain).", "§5 C10"),
  "C11": ("exploration", "monitoring every execution of finite sub-spaces (exhaustive small scopes) + random large cases: recorded operations replayed by a reference replayer and the real ApplySingle / ApplyPatch, structural predicates on the op list",
          "~5*10^7 exhaustive executions (quick) over block sizes 1..4, 1-3 old files, alphabets 2-3, every preferred index, plus random cases with new content > 4 MiB crossing the internal buffer wrap at every phase.",
@@ -49,7 +49,7 @@ CHECKS = {
          "Patches mixing every series kind; every subset (or structured + random subsets above 8 files), nil whitelist, stop/resume on the same patcher; touched count, bowl calls, file bytes, old-build read set.",
          "A file resumed after a stop may ask for its writer again.", "§5 C17"),
  "C06": ("fault_enumeration", "fault enumeration x forced and perturbed schedules at build-tag hooks in validator/healer; independent tree oracle after return; quiescence-based hang detector; race detector pass (thorough)",
-         "Every damage class (incl. subtree-hiding kind swaps, emptied/missing directory) is healed from a zip made by wharf under validator-first, healer-first and seeded perturbed schedules with GOMAXPROCS 1/4/16; all signed entries must be exact afterwards and AssertValid nil; every third damaged case heals a second time with the same context; a valid directory must stay untouched (inode/mtime/checksum). The evidence counts runs where a hidden child was checked before / after its parent was healed; a run that saw only one order is inconclusive.",
+         "Every damage class (incl. subtree-hiding kind swaps, emptied/missing directory) is healed from a zip made by wharf under validator-first, healer-first and seeded perturbed schedules with GOMAXPROCS 1/4/16; all signed entries must be exact afterwards and AssertValid nil; every third damaged case heals a second time with the same context (the first call's consumer goroutine parked at a hook until the second call runs); a build signed from a zip without directory entries; a valid directory must stay untouched (inode/mtime/checksum). The evidence counts runs where a hidden child was checked before / after its parent was healed; a run that saw only one order is inconclusive.",
          "Schedule space is sampled, not enumerated; extra unsigned files may remain.", "§5 C06"),
  "C15": ("exploration", "determinism monitor (byte equality of patch/signature/optimizer output across runs under perturbed read slicing, sinks, bsdiff hooks and GOMAXPROCS 1/2/4/16) + Go race detector as a deciding oracle",
          "Each pair is diffed R times with a different controller seed per run (the second run on a DiffContext object that diffed a decoy old build before; optimizer runs share pools) and optimized R times per parameter set; any byte difference is a violation; the same reduced list runs under -race and every de-duplicated report with a frame in the differ/optimizer pipelines is a violation.",
